@@ -319,6 +319,29 @@ def Chunk.fixedLen (c : Chunk) (n : Int) : Text :=
   else if diff < 0 then construct [.chunk ⟨c.col, pySlice c.text none (some n)⟩]
   else construct [.chunk c]
 
+/-! ### iteration -/
+
+/-- the sequence-iteration protocol (`iter(obj)` of a class with `__getitem__` and no `__iter__`):
+`obj[0]`, `obj[1]`, … until `IndexError`. `fuel` bounds the loop (proved sufficient). -/
+def iterLoop {α} (get : Nat → Except Err α) : Nat → Nat → Except Err (List α)
+  | 0, _ => .error .outOfFuel
+  | fuel + 1, k =>
+    match get k with
+    | .error .indexError => .ok []
+    | .error e => .error e
+    | .ok x =>
+      match iterLoop get fuel (k + 1) with
+      | .ok xs => .ok (x :: xs)
+      | .error e => .error e
+
+/-- `list(text)`: one-character texts -/
+def Text.iter (t : Text) : Except Err (List Text) :=
+  iterLoop (fun k => t.getIndex (k : Int)) (t.cells.length + 1) 0
+
+/-- `list(chunk)`: one-character chunks -/
+def Chunk.iter (c : Chunk) : Except Err (List Chunk) :=
+  iterLoop (fun k => c.getIndex (k : Int)) (c.text.length + 1) 0
+
 /-! ### operation trees -/
 
 inductive Expr where
@@ -332,6 +355,7 @@ inductive Expr where
   | idx (a : Expr) (i : Int)                         -- `a[i]`
   | slice (a : Expr) (i j : Option Int)              -- `a[i:j]`
   | fixedLen (a : Expr) (n : Int)                    -- `a.fixed_len(n)`
+  | iter (a : Expr)                                  -- `list(a)`
   deriving Repr
 
 def liftErr {α} : Except Err α → Except Fail α
@@ -398,6 +422,12 @@ def eval : Expr → Except Fail Part
     match x with
     | .text t => .ok (.text (t.fixedLen n))
     | .chunk c => .ok (.text (c.fixedLen n))
+    | _ => .error .unmodelled
+  | .iter a => do
+    let x ← eval a
+    match x with
+    | .text t => liftErr (t.iter.map fun ts => Part.list false (ts.map Part.text))
+    | .chunk c => liftErr (c.iter.map fun cs => Part.list false (cs.map Part.chunk))
     | _ => .error .unmodelled
 def evalList : List Expr → Except Fail (List Part)
   | [] => .ok []
